@@ -21,6 +21,7 @@ Declared facts:
 import json as _json
 import pickle as _pickle
 import re
+import collections
 import sqlite3
 
 from . import devices
@@ -1268,6 +1269,11 @@ V('sort',
                       buffersize=2),
   lambda e, w: e.sort(e.convert(w.s[0], 'a', f_as_dict), 'a', buffersize=2,
                       cache=False))
+# (the documented way to fix the order of the aggregated fields; entries in
+# their short forms: a bare function, a bare field name, a 1-tuple)
+V('aggregate',
+  lambda e, w: e.aggregate(w.s[0], 'a', w.arg(collections.OrderedDict(
+      [('n', len), ('cs', 'c'), ('m', (len,))]))))
 V('mergesort',
   lambda e, w: e.mergesort(w.s[0], w.s[1], w.s[0], key='a'),
   lambda e, w: e.mergesort(w.s[0], key='c'),
